@@ -7,6 +7,7 @@ From V.c04 Require Import C04Model C04AsmModel C04ReaderProofs C04ContainerProof
 From V.c04 Require Import C04AllocModel C04AllocProofs.
 From V.c04 Require Import C04MfraModel C04MfraProofs.
 From V.c04 Require Import C04TreeModel C04TreeProofs.
+From V.c04 Require Import C04XrefModel C04XrefProofs.
 Open Scope N_scope.
 
 (* ---- (a) bits.FixedSliceReader: every method, every reachable state, under the caller guards ---- *)
@@ -466,3 +467,73 @@ Example ex_tree_moof_ok :
   (match box_sr tbl_leaves ex_tree_moof with (Ok t, s) => tsize t = 60%N /\ alloc (scost s) = 36%N | _ => False end) /\
   (match box_r tbl_leaves ex_tree_moof with (Ok (BBox t), s) => tsize t = 60%N | _ => False end).
 Proof. split; [exact std_leaves_ok|]. vm_compute. repeat split; reflexivity. Qed.
+
+(* ---- (g) cross-box references of the second senc pass (mp4/traf.go ParseReadSenc, the moof case of DecodeFile /
+        DecodeFileSR): the seig group lookup sbgp.group_description_index -> sgpd.SampleGroupEntries, the saio
+        offset against the senc position, tfhd.track_ID against the traks of the moov.
+        returns r := r is Ok _ or Err (never Panic, never out of fuel).  sbgp_wf: the two parallel sbgp slices have
+        the same length (what DecodeSbgpSR produces: C04_sbgp_decoded_wf); without it the first index expression is
+        partial (an API-built box: group_lookup_api_panics). ---- *)
+Theorem C04_senc_group_lookup_total : forall sb sg, sbgp_wf sb = true -> returns (group_lookup sb sg).
+Proof. exact group_lookup_total. Qed.
+Print Assumptions C04_senc_group_lookup_total.
+
+Theorem C04_sbgp_decoded_wf : forall seig entries, sbgp_wf (sbgp_decoded seig entries) = true.
+Proof. exact sbgp_decoded_wf. Qed.
+Print Assumptions C04_sbgp_decoded_wf.
+
+(* what the pinned text accepts: one sbgp entry, index 65536 + 1, first sgpd entry a seig entry *)
+Theorem C04_senc_group_lookup_accepts : forall sb sg iv, group_lookup sb sg = Ok iv ->
+  lenN (sb_counts sb) = 1 /\ idxN (sb_idx sb) 0 = Ok 65537 /\ idxN (sg_entries sg) 0 = Ok (SGSeig iv).
+Proof. exact group_lookup_accepts. Qed.
+Print Assumptions C04_senc_group_lookup_accepts.
+
+(* the generalised text ("any fragment-local index") with `idx > len(entries)` as range check: an index exactly one
+   past the last entry is an out-of-range access, and nothing else is *)
+Theorem C04_senc_group_lookup_off_by_one_refuted :
+  exists sb sg, sbgp_wf sb = true /\ group_lookup_gen false sb sg = Panic.
+Proof. exact group_lookup_gen_refuted. Qed.
+Print Assumptions C04_senc_group_lookup_off_by_one_refuted.
+
+Theorem C04_senc_group_lookup_off_by_one_exact : forall sb sg, sbgp_wf sb = true ->
+  (group_lookup_gen false sb sg = Panic <->
+   lenN (sb_counts sb) = 1 /\ lenN (sg_entries sg) <> 0 /\
+   exists nr, idxN (sb_idx sb) 0 = Ok nr /\ 65536 < nr /\ u32sub (u32sub nr 65536) 1 = lenN (sg_entries sg)).
+Proof. exact group_lookup_gen_off_by_one_panics. Qed.
+Print Assumptions C04_senc_group_lookup_off_by_one_exact.
+
+(* with `idx >= len(entries)` the generalised text is total and extends the pinned one *)
+Theorem C04_senc_group_lookup_gen_total : forall sb sg, sbgp_wf sb = true -> returns (group_lookup_gen true sb sg).
+Proof. exact group_lookup_gen_strict_total. Qed.
+Print Assumptions C04_senc_group_lookup_gen_total.
+
+Theorem C04_senc_group_lookup_gen_extends : forall strict sb sg iv,
+  group_lookup sb sg = Ok iv -> group_lookup_gen strict sb sg = Ok iv.
+Proof. exact group_lookup_gen_extends. Qed.
+Print Assumptions C04_senc_group_lookup_gen_extends.
+
+(* the whole moof case: for every moov context, moof position and list of trafs whose boxes the decoders can produce
+   (xtraf_wf: parallel sbgp slices, every senc passed the first-phase guard 2*count <= len(rawData)), with any saio
+   offsets, any group description indices, any track ids, any number of senc / PIFF senc children *)
+Theorem C04_senc_pass_x_total : forall moov ms trafs,
+  forallb xtraf_wf trafs = true -> returns (moof_senc_pass_x moov ms trafs).
+Proof. exact moof_senc_pass_x_total. Qed.
+Print Assumptions C04_senc_pass_x_total.
+
+(* moof_enc.m4s in the abstract: one sbgp entry (96 samples, index 65537), a one-entry seig sgpd (IV size 8): the lookup
+   gives 8; the same with index 65538 is an error of the pinned text and an out-of-range access of the off-by-one text;
+   the hypotheses are satisfiable by a traf with saio, sbgp, sgpd and a senc with sub-sample data *)
+Example ex_xref_traf : xtraf :=
+  mkXT (Some 1) (Some [184]) (Some (sbgp_decoded true [(2, 65537)])) (Some (mkSgpd true [SGSeig 8]))
+       [mkSenc false 168 2 2 [1;1;1;1;1;1;1;1;0;0; 2;2;2;2;2;2;2;2;0;1;0;10;0;0;0;100]].
+Example ex_xref_lookup :
+  group_lookup (sbgp_decoded true [(96, 65537)]) (mkSgpd true [SGSeig 8]) = Ok 8 /\
+  group_lookup (sbgp_decoded true [(96, 65538)]) (mkSgpd true [SGSeig 8]) = Err /\
+  group_lookup_gen false (sbgp_decoded true [(96, 65538)]) (mkSgpd true [SGSeig 8]) = Panic /\
+  group_lookup_gen true (sbgp_decoded true [(96, 65538)]) (mkSgpd true [SGSeig 8]) = Err /\
+  xtraf_wf ex_xref_traf = true /\
+  moof_senc_pass_x None 0 [ex_xref_traf] = Ok [Some (2, 2)] /\
+  moof_senc_pass_x (Some [(Some 1, EAV true (Some 8))]) 0 [ex_xref_traf] = Ok [Some (2, 2)] /\
+  moof_senc_pass_x (Some [(Some 1, EAV false None)]) 0 [ex_xref_traf] = Ok [None] /\
+  moof_senc_pass_x None 1 [ex_xref_traf] = Err.
+Proof. vm_compute. repeat split; reflexivity. Qed.
